@@ -24,26 +24,32 @@ class SeismicZfpBackendArray(BackendArray):
         )
 
     def _raw_indexing_method(self, key: tuple) -> np.typing.ArrayLike:
+        # key holds an int or a slice per axis, with numpy's basic-indexing meaning (negative values, steps, clipping).
+        # Read the bounding box of the request, then apply steps/directions and drop the axes addressed by an int.
+        bounds, post = [], []
+        for k, n in zip(key, self.shape):
+            if isinstance(k, slice):
+                r = range(*k.indices(n))
+                if len(r) == 0:
+                    bounds.append((0, 0))
+                else:
+                    bounds.append((min(r[0], r[-1]), max(r[0], r[-1]) + 1))
+                post.append(slice(None, None, r.step))
+            else:
+                i = int(k) + n if k < 0 else int(k)
+                if not 0 <= i < n:
+                    raise IndexError(f"index {k} is out of bounds for axis with size {n}")
+                bounds.append((i, i + 1))
+                post.append(0)
 
-        min_il = key[0].start if isinstance(key[0], slice) else key[0]
-        min_xl = key[1].start if isinstance(key[1], slice) else key[1]
-        min_z = key[2].start if isinstance(key[2], slice) else key[2]
+        if any(lo == hi for lo, hi in bounds):
+            return np.zeros(tuple(len(range(*k.indices(n))) for k, n in zip(key, self.shape) if isinstance(k, slice)),
+                            dtype=self.dtype)
 
-        min_il = 0 if min_il is None else min_il
-        min_xl = 0 if min_xl is None else min_xl
-        min_z = 0 if min_z is None else min_z
-
-        max_il = key[0].stop if isinstance(key[0], slice) else key[0] + 1
-        max_xl = key[1].stop if isinstance(key[1], slice) else key[1] + 1
-        max_z = key[2].stop if isinstance(key[2], slice) else key[2] + 1
-
-        max_il = self.sgz_reader.n_ilines if max_il is None else max_il
-        max_xl = self.sgz_reader.n_xlines if max_xl is None else max_xl
-        max_z = self.sgz_reader.n_samples if max_z is None else max_z
-
+        (min_il, max_il), (min_xl, max_xl), (min_z, max_z) = bounds
         return self.sgz_reader.read_subvolume(min_il=min_il, max_il=max_il,
                                               min_xl=min_xl, max_xl=max_xl,
-                                              min_z=min_z,   max_z=max_z)
+                                              min_z=min_z,   max_z=max_z)[tuple(post)]
 
 
 class SeismicZfpBackendEntrypoint(BackendEntrypoint):
